@@ -392,7 +392,9 @@ class ExprMixin(object):
       yield st1, self.binop(n.op, a, b, st1)
 
   def ev_Lambda(self, n, st):
-    yield st, VFunc(n, st.env, self.cur_mod, '<lambda>')
+    f = VFunc(n, dict(st.env), self.cur_mod, '<lambda>')
+    f.home_depth = self.inline_depth
+    yield st, f
 
   def ev_JoinedStr(self, n, st):
     yield st, VStr(fresh('fstr', S))
